@@ -4,7 +4,10 @@ from packaging.requirements import Requirement, InvalidRequirement
 from packaging.utils import canonicalize_name
 from vf.runner import run_check, Violation
 b64 = lambda b: base64.b64encode(b).decode(); unb = base64.b64decode
-TRIG = {"pixee:python/use-defusedxml": ("import xml.sax\nxml.sax.parse('f')\n", "defusedxml"), "pixee:python/harden-pickle-load": ("import pickle\npickle.load(open('f','rb'))\n", "fickling")}
+TRIG = {"pixee:python/use-defusedxml": ("import xml.sax\nxml.sax.parse('f')\n", "defusedxml"), "pixee:python/harden-pickle-load": ("import pickle\npickle.load(open('f','rb'))\n", "fickling"),
+        "pixee:python/flask-enable-csrf-protection": ("from flask import Flask\napp = Flask(__name__)\n", "flask-wtf"),      # a name with a separator: Flask_WTF, flask.wtf and flask-wtf are one package (PEP 503)
+        "pixee:python/url-sandbox": ("import requests\nfrom flask import request\ndef v():\n    requests.get(request.args['u'])\n", "security"),
+        "pixee:python/sandbox-process-creation": ("import subprocess\nfrom flask import request\ndef v():\n    subprocess.run(request.args['c'])\n", "security")}
 PKGS = ["requests", "flask>=2", "Django==4.2", "numpy ; python_version<'3.12'", "uvicorn[standard]>=0.20", "typing_extensions"]
 
 def gen_requirements(rnd, present):
@@ -124,9 +127,9 @@ def plan(tier, seed):
     rnd = random.Random(f"C14:{seed}"); jobs = []
     n = 150 if tier == "quick" else 1500
     for k in range(n):
-        cid = rnd.choice(sorted(TRIG)); src, pkg = TRIG[cid]
+        cid = rnd.choice(sorted(TRIG) + [c_ for c_ in sorted(TRIG) if "sandbox" not in c_] * 2); src, pkg = TRIG[cid]       # (the two semgrep-detected ones cost a semgrep call each: a sixth of the cases)
         kinds = rnd.sample(sorted(GEN), rnd.choice((1, 1, 1, 2, 0)))
-        presence = rnd.choice((None, None, None, pkg, pkg.upper() + ">=0.1", pkg.capitalize(), pkg.replace("x", "X") + "==0.0.1"))
+        presence = rnd.choice((None, None, None, pkg, pkg.upper() + ">=0.1", pkg.capitalize(), pkg.replace("x", "X") + "==0.0.1", pkg.replace("-", "_") + ">=0.1", pkg.replace("-", ".").title(), pkg.replace("-", "_").upper()))
         files = {"app.py": b64(src.encode())}; mf = {}
         for i, kind in enumerate(kinds):
             text = GEN[kind](rnd, presence if i == 0 else None)
